@@ -144,7 +144,7 @@ func HasCacheLabel(o map[string]any) bool {
 }
 
 // UID / RV helpers.
-func UID(o map[string]any) string { return kubesim.MetaString(o, "uid") }
+func UID(o map[string]any) string  { return kubesim.MetaString(o, "uid") }
 func RVOf(o map[string]any) string { return kubesim.MetaString(o, "resourceVersion") }
 
 // U wraps a map as unstructured (no copy).
